@@ -48,6 +48,8 @@ func caseFromSx(v sx.V) (Case, error) {
 		return routeCase{routeCaseFromSx(v)}, nil
 	case "copy":
 		return copyCase{copyCaseFromSx(v)}, nil
+	case "unit":
+		return unitCaseFromSx(v), nil
 	}
 	return nil, fmt.Errorf("unknown family %q", v.N(0).Str())
 }
@@ -64,6 +66,18 @@ func generate(prop, tier string, rng *Rng) []Case {
 		return genC04(tier, rng)
 	case "C20":
 		return genC20(tier, rng)
+	case "C15":
+		return genRangeUnit(tier)
+	case "C06":
+		return genRecompUnit()
+	case "C07":
+		return genMetaUnit(tier, rng)
+	case "C10":
+		return genCCUnit(tier, rng)
+	case "C11":
+		return append(genKeyUnit(tier, rng), genKeyPairs(tier, rng)...)
+	case "C09":
+		return genEtagUnit()
 	}
 	fmt.Fprintf(os.Stderr, "hx: no generator for %s\n", prop)
 	os.Exit(2)
